@@ -40,6 +40,8 @@ class Contract:
         self.post = getattr(impl, "post", None)
         self.raises: Dict[str, Callable] = dict(getattr(impl, "raises", {}) or {})
         self.may_raise: List[str] = list(getattr(impl, "may_raise", []) or [])
+        # one-sided exceptional postconditions: `raise X` implies cond_X (nothing is said about normal returns)
+        self.raises_only_if: Dict[str, Callable] = dict(getattr(impl, "raises_only_if", {}) or {})
         # one-sided exceptional postconditions: `raise X` implies cond_X (nothing is claimed on a normal return)
         self.raises_implies: Dict[str, Callable] = dict(getattr(impl, "raises_implies", {}) or {})
         # one-sided exceptional postconditions: `raise X` implies cond_X(s) (s.exc is the exception); a normal return
@@ -96,6 +98,8 @@ class ClassSpec:
         # a mutable builder-like class: fresh immutable objects handed to its methods are published (their fields become
         # facts about the field functions of their reference) because they may be stored in its symbolic lists
         self.owns_state: bool = bool(getattr(impl, "owns_state", False))
+        # the class invariant of a materialised receiver is obligated before / assumed after calls of its methods
+        self.invariant_at_calls: bool = bool(getattr(impl, "invariant_at_calls", False))
 
 
 class Registry:
